@@ -61,6 +61,12 @@ def run(res, tier, seed):
     inputs = make_inputs(rnd, n)
     rows, _ = common.run_harness(["c06", "-seed", seed], stdin="\n".join(json.dumps({k: v for k, v in i.items() if not k.startswith("_")}) for i in inputs) + "\n", timeout=900)
     pcg_rows, _ = common.run_harness(["c06-pcg", "-seed", seed, "-n", 400 if tier == "quick" else 3000])
+    for pr in pcg_rows:
+        if (pr["hi0"], pr["lo0"]) != (pr.get("fresh_hi0", pr["hi0"]), pr.get("fresh_lo0", pr["lo0"])):
+            res.violation({"what": "seeding a context that was seeded and used before does not start the sequence a fresh context starts from the same seed",
+                           "seed_bytes": pr["seed"], "history": "ctx.Seed = other; Init(); draws; Run(\"2d6 + d20\"); ctx.Seed = seed_bytes; Init()",
+                           "generator_state_after_Init": [pr["hi0"], pr["lo0"]], "fresh_context_same_seed": [pr["fresh_hi0"], pr["fresh_lo0"]]})
+            break
     for i, r in zip(inputs, rows):
         res.count(i["_src"] + "|" + i["_pre"], nontrivial=r["a"]["ok"])
     res.cov["rule"] = ("dice-using programs (every family incl. Double Cross, default sides, nested rolls, the random array methods, templates, functions and "
